@@ -297,8 +297,14 @@ func buildTypes() []etype {
 	addType(l, "[40]int64", func(v int) (a [40]int64) { a[0], a[39] = int64(v), int64(-v); return }, same[[40]int64])
 	// exactly 128 bytes, one more, and a very wide element
 	addType(l, "[16]int64", func(v int) (a [16]int64) { a[0], a[7], a[15] = int64(v), int64(v)<<20, int64(-v); return }, same[[16]int64])
-	addType(l, "[129]byte", func(v int) (a [129]byte) { a[0], a[1], a[2], a[128] = byte(v), byte(v>>8), byte(v>>16), byte(v); return }, same[[129]byte])
-	addType(l, "[1500]byte", func(v int) (a [1500]byte) { a[0], a[1], a[2], a[750], a[1499] = byte(v), byte(v>>8), byte(v>>16), byte(v), byte(v>>8); return }, same[[1500]byte])
+	addType(l, "[129]byte", func(v int) (a [129]byte) {
+		a[0], a[1], a[2], a[128] = byte(v), byte(v>>8), byte(v>>16), byte(v)
+		return
+	}, same[[129]byte])
+	addType(l, "[1500]byte", func(v int) (a [1500]byte) {
+		a[0], a[1], a[2], a[750], a[1499] = byte(v), byte(v>>8), byte(v>>16), byte(v), byte(v>>8)
+		return
+	}, same[[1500]byte])
 	// a zero-size type that is not comparable
 	addType(l, "[0]func", func(v int) [0]func() { return [0]func(){} }, func(a, b [0]func()) bool { return true })
 	// values that only the container references: the model keeps an equal value in a separate allocation
